@@ -12,10 +12,10 @@
     command behind it, from ANY lexer record in `lexText`) and C15c's `cmt_run` (a text run and a comment behind
     it), bridged by `holds_of_inpAt`.
 
-  NOT in this file: the parser half (the RawText nodes with the trim flags of `joinLines` next to a comment, the
-  print nodes modulo positions).  C15c's parser steps for comments (`textOrTag_until_c`, `parse_cbody`) speak about
-  the item STREAM with positions, C17d's steps for print commands (`loop_text`, `loop_print`) about the position-free
-  token view `At st.p tks`; the comment steps have to be restated over `At` first.
+  NOT in this file: the parser half as a whole (the RawText nodes with the trim flags of `joinLines` next to a comment,
+  the print nodes modulo positions).  Its three comment steps over C17d's position-free token view `At st.p tks` are
+  proved in the last section (`skip_run`, `textOrTag_skip`, `textOrTag_textG`); the list induction over the pieces (with
+  the pending run of comment tokens as an accumulator) and `body_source_spec_cmds_comments` are not.
 -/
 import SoyVerif.Props.C17d
 
@@ -160,6 +160,105 @@ theorem lexAll_xbody (b : XBody) (h : WFX ff b) : lexAll (srcOfX ff b) false = .
   have := lex_xbody ff LT b h (srcOfX ff b).toArray 0 0 false 0 Item.zero #[] (7 * (srcOfX ff b).length + 8)
     (inpAt_zero _) (by omega)
   simpa [initLexer] using this
+
+end
+/-! ## parser steps for comments over the position-free view `At st.p tks` (C17d's view)
+
+  The three steps the parser half needs, proved; the list induction (`tksOfX`, `NodesMatchX`,
+  `body_source_spec_cmds_comments`) is NOT done.  `textOrTag` computes `seenComment` from the token it is handed
+  and then calls `skipComments`; everything behind that depends on the token `skipComments` returns, and on
+  `seenComment` only in the Text branch.  So:
+  * `skip_run`: `skipComments` over a run of Comment tokens;
+  * `textOrTag_skip`: a comment run in front of a token that is neither Comment nor Text (a `{`, EOF) — `textOrTag` goes
+    on exactly as if handed that token, so C17c's `textOrTag_print` and the EOF round apply unchanged;
+  * `textOrTag_textG`: the Text branch with trimBefore = "the token handed in is a comment" and trimAfter = "the next
+    token is a comment" (`joinLines t tb ta`). -/
+
+open SoyVerif.Model.FileParser (FState FP Node NodeList textOrTag itemListLoop skipComments collectText rawtextP parseFile parseSource)
+open SoyVerif.Spec (joinLines)
+
+section
+variable (pf : Bytes → Option UInt64)
+
+/-- `skipComments` over a run of Comment tokens (the first one, `c0`, already read) -/
+theorem skip_run : ∀ (cs : List Tk), (∀ c ∈ cs, c.typ = .tComment) → ∀ (c0 : Item), c0.typ = .tComment →
+    ∀ (nx : Tk) (s : List Tk), nx.typ ≠ .tComment → ∀ (f : Nat) (st : FState), Just st.p c0 (cs ++ nx :: s) →
+    ∃ n p', skipComments (f + cs.length + 2) c0 st = .ok (n, { st with p := p' }) ∧ n.typ = nx.typ ∧ n.val = nx.val ∧
+      Just p' n s
+  | [], _, c0, hc0, nx, s, hnx, f, st, hj => by
+    obtain ⟨n, p1, hn, hty, hv, hj1⟩ := fnext_at (st := st) hj.at
+    refine ⟨n, p1, ?_, hty, hv, hj1⟩
+    show skipComments ((f + 1) + 1) c0 st = _
+    unfold skipComments
+    simp only [hc0, beq_self_eq_true, if_true]
+    rw [fbind_ok hn]
+    exact skipComments_id f n _ (by rw [hty]; exact hnx)
+  | c :: cs, hcs, c0, hc0, nx, s, hnx, f, st, hj => by
+    obtain ⟨n, p1, hn, hty, hv, hj1⟩ := fnext_at (st := st) hj.at
+    have hnc : n.typ = .tComment := by rw [hty]; exact hcs c (by simp)
+    obtain ⟨m, p2, hs, a, b, d⟩ := skip_run cs (fun x hx => hcs x (by simp [hx])) n hnc nx s hnx f { st with p := p1 } hj1
+    refine ⟨m, p2, ?_, a, b, d⟩
+    show skipComments ((f + cs.length + 2) + 1) c0 st = _
+    unfold skipComments
+    simp only [hc0, beq_self_eq_true, if_true]
+    rw [fbind_ok hn]
+    exact hs
+
+/-- a run of comments in front of a token that is neither Comment nor Text: `textOrTag` goes on as if handed that token -/
+theorem textOrTag_skip (ef fuel : Nat) (untl : List ItemType) (c0 n : Item) (st st1 : FState)
+    (hc0 : c0.typ = .tComment) (hsk : skipComments (fuel + 1) c0 st = .ok (n, st1)) (hn : n.typ ≠ .tComment)
+    (hnt : n.typ ≠ .tText) :
+    textOrTag pf ef (fuel + 2) c0 untl st = textOrTag pf ef (fuel + 2) n untl st1 := by
+  have hnt' : (n.typ == ItemType.tText) = false := by simpa using hnt
+  conv => lhs; unfold textOrTag
+  conv => rhs; unfold textOrTag
+  simp only
+  rw [fbind_ok hsk, fbind_ok (skipComments_id fuel n st1 hn)]
+  simp only [hnt', Bool.false_eq_true, if_false]
+
+/-- `textOrTag` handed a token `tok0` behind which `skipComments` finds the Text token `t`, followed by a token `nx` of
+    another type: the RawText node of the text normalised with trimBefore = "`tok0` is a comment" and trimAfter = "`nx` is
+    a comment" (none if that is empty); `nx` stays unread -/
+theorem textOrTag_textG (ef fuel : Nat) (untl : List ItemType) (hu : untl.contains .tText = false) (tok0 t : Item)
+    (ht : t.typ = .tText) (st0 st : FState) (hsk : skipComments (fuel + 1) tok0 st0 = .ok (t, st))
+    (nx : Tk) (hnx : nx.typ ≠ .tText) (s : List Tk) (hst : At st.p (nx :: s)) :
+    ∃ p', textOrTag pf ef (fuel + 2) tok0 untl st0 =
+        .ok ((if (joinLines t.val (tok0.typ == .tComment) (nx.typ == .tComment)).isEmpty then none
+              else some (.rawText t.pos (joinLines t.val (tok0.typ == .tComment) (nx.typ == .tComment))), false), { st with p := p' }) ∧
+      At p' (nx :: s) := by
+  obtain ⟨n1, p1, hn1, hty1, hv1, hj1⟩ := fnext_at hst
+  obtain ⟨p2, hb2, ha2⟩ := fbackup_just (st := { st with p := p1 }) hj1
+  rw [tk_eq hty1 hv1] at ha2
+  obtain ⟨n3, p3, hn3, hty3, hv3, hj3⟩ := fnext_at (st := { st with p := p2 }) ha2.at
+  obtain ⟨p4, hb4, ha4⟩ := fbackup_just (st := { st with p := p3 }) hj3
+  rw [tk_eq hty3 hv3] at ha4
+  refine ⟨p4, ?_, ha4.at⟩
+  have hct : collectText (fuel + 1) t.val { st with p := p2 } = .ok ((t.val, n3), { st with p := p3 }) := by
+    unfold collectText
+    rw [fbind_ok hn3]
+    have : (n3.typ != ItemType.tText) = true := by rw [hty3]; simpa using hnx
+    simp only [this, if_true]
+    rfl
+  unfold textOrTag
+  simp only
+  rw [fbind_ok hsk]
+  simp only [ht, hu, Bool.false_eq_true, if_false]
+  rw [fbind_ok hn1]
+  simp only [show (ItemType.tText == ItemType.tLeftDelim) = false by decide, Bool.false_and, Bool.false_eq_true, if_false]
+  rw [fbind_ok hb2]
+  simp only [beq_self_eq_true, if_true]
+  rw [fbind_ok hct]
+  simp only
+  rw [fbind_ok hb4]
+  simp only
+  unfold rawtextP
+  rw [SoyVerif.Props.C15.rawtext_spec]
+  simp only [hty3]
+  rw [fbind_ok (show (pure (joinLines t.val (tok0.typ == ItemType.tComment) (nx.typ == ItemType.tComment)) : FP Bytes) { st with p := p4 } =
+    .ok (_, { st with p := p4 }) from rfl)]
+  by_cases hj : (joinLines t.val (tok0.typ == ItemType.tComment) (nx.typ == ItemType.tComment)).isEmpty = true
+  · rw [if_pos hj, if_pos hj]; rfl
+  · rw [if_neg hj, if_neg hj]; rfl
 
 end
 end SoyVerif.Props.C15d
